@@ -811,6 +811,7 @@ package types
 //@   requires p != nil
 //@   modifies nothing
 //@   ensures [partsTotalBounded] err == nil ==> p.POLBlockID.PartsHeader.Total <= MaxBlockPartsCount
+//@   ensures [wellFormedProposalsAccepted] p.POLBlockID.Hash != common.Hash{} && p.POLBlockID.PartsHeader != PartSetHeader{} && p.POLBlockID.PartsHeader.Total <= MaxBlockPartsCount && len(p.Signature) > 0 ==> err == nil
 //@   ensures [signed] err == nil ==> len(p.Signature) > 0
 //@ func ProposalFromProto(pp *kproto.Proposal) (r *Proposal, err error)
 //@   for C13 C18
@@ -1015,6 +1016,7 @@ package types
 //@   ensures [typeKnown] err == nil ==> vote.Type == kproto.PrevoteType || vote.Type == kproto.PrecommitType
 //@   ensures [blockIDEmptyOrComplete] err == nil ==> vote.BlockID == BlockID{} || (vote.BlockID.Hash != common.Hash{} && vote.BlockID.PartsHeader != PartSetHeader{})
 //@   ensures [signed] err == nil ==> len(vote.Signature) > 0
+//@   ensures [wellFormedVotesAccepted] (vote.Type == kproto.PrevoteType || vote.Type == kproto.PrecommitType) && (vote.BlockID == BlockID{} || (vote.BlockID.Hash != common.Hash{} && vote.BlockID.PartsHeader != PartSetHeader{})) && len(vote.Signature) > 0 ==> err == nil
 //@ func VoteFromProto(pv *kproto.Vote) (r *Vote, err error)
 //@   for C13 C18
 //@   ensures pv == nil ==> err != nil
@@ -1121,6 +1123,7 @@ package types
 //@   modifies nothing
 //@   ensures [flagIsOneOfTheThree] err == nil ==> cs.BlockIDFlag == BlockIDFlagAbsent || cs.BlockIDFlag == BlockIDFlagCommit || cs.BlockIDFlag == BlockIDFlagNil
 //@   ensures [signedUnlessAbsent] err == nil && cs.BlockIDFlag != BlockIDFlagAbsent ==> len(cs.Signature) > 0
+//@   ensures [signedSlotsAccepted] (cs.BlockIDFlag == BlockIDFlagCommit || cs.BlockIDFlag == BlockIDFlagNil) && len(cs.Signature) > 0 ==> err == nil
 //@   ensures [absentSlotIsEmpty] err == nil && cs.BlockIDFlag == BlockIDFlagAbsent ==> len(cs.Signature) == 0 && cs.ValidatorAddress == common.Address{}
 
 // ---------------------------------------------------------------- C14: what can be saved can be loaded
